@@ -47,7 +47,7 @@ Claim(u) ==
                               !.dbal = @ - pay, !.w[u] = @ + pay,
                               !.paid = @ \cup {<<u, i>> : i \in {j \in Claimable(u) : r[j] > 0}},
                               !.cursor[u] = NEp(st)]
-          IN /\ AllOk(ClaimChecks(st, u, t, pay)) /\ st' = t /\ Op([op |-> "claim", u |-> u, x |-> 0])
+          IN /\ AllOk(ClaimChecks(st, u, t, pay, {i \in 1 .. NEp(st) : i > st.first[u]})) /\ st' = t /\ Op([op |-> "claim", u |-> u, x |-> 0])
 Bond(u) == /\ ~st.bonded[u]
            /\ st' = [st EXCEPT !.bonded[u] = TRUE, !.first[u] = NEp(st)] /\ Op([op |-> "bond", u |-> u, x |-> 0])
 SetGrace(g) == /\ g > st.grace /\ g <= MaxGrace
